@@ -263,14 +263,24 @@ type c11Struct struct {
 
 type c11Named uint16
 
+// registered named collection types (their codecs are built by registerType, not by getEncoder)
+type c11MapAny map[any]int32
+type c11MapStr map[string]any
+type c11Slice []any
+type c11Arr [2]any
+
 // VerifC11Composite: slices, arrays, maps, any, a registered struct and a named type; nil and
 // empty collections kept apart (byte slices excepted).
 func VerifC11Composite() {
-	sh := lib.VerifShard("kind", 7)
+	sh := lib.VerifShard("kind", 11)
 	useReg := lib.VerifPick("regcache", 2) == 1
 	var enc, dec Options
 	RegisterTypeOf(c11Struct{})
 	RegisterTypeOf(c11Named(0))
+	RegisterTypeOf(c11MapAny{})
+	RegisterTypeOf(c11MapStr{})
+	RegisterTypeOf(c11Slice{})
+	RegisterTypeOf(c11Arr{})
 	if useReg {
 		enc.RegCache = new(sync.Map)
 		dec.RegCache = new(sync.Map)
@@ -379,6 +389,44 @@ func VerifC11Composite() {
 		v := c11Named(lib.VerifUint16("n"))
 		out, ok := rt(v, "named")
 		lib.VerifAssert(!ok || out == v, "named type: decoded value has the same type and value")
+	case 7: // registered map with interface-typed keys
+		v := c11MapAny{"k": lib.VerifInt32("e")}
+		if lib.VerifPick("shape", 2) == 1 {
+			v[int8(3)] = lib.VerifInt32("e")
+		}
+		out, ok := rt(v, "registered map[any]T")
+		if ok {
+			o, is := out.(c11MapAny)
+			lib.VerifAssert(is && len(o) == len(v), "registered map[any]T: same type and size")
+			for k, e := range v {
+				lib.VerifAssert(is && o[k] == e, "registered map[any]T: same entries")
+			}
+		}
+	case 8: // registered map with interface-typed values, followed by a sibling value
+		v := []any{c11MapStr{"k": lib.VerifInt32("e"), "s": "x"}, "after"}
+		out, ok := rt(v, "registered map[K]any")
+		if ok {
+			o, is := out.([]any)
+			lib.VerifAssert(is && len(o) == 2 && o[1] == "after", "registered map[K]any: the value behind it survives")
+			if is && len(o) == 2 {
+				m, isM := o[0].(c11MapStr)
+				lib.VerifAssert(isM && len(m) == 2 && m["k"] == v[0].(c11MapStr)["k"] && m["s"] == "x", "registered map[K]any: same entries")
+			}
+		}
+	case 9: // registered slice of any
+		v := c11Slice{lib.VerifInt16("e"), "s", nil, c11Named(lib.VerifUint16("n"))}
+		out, ok := rt(v, "registered []any")
+		if ok {
+			o, is := out.(c11Slice)
+			lib.VerifAssert(is && len(o) == 4, "registered []any: same type and length")
+			for i := 0; is && i < 4 && i < len(o); i++ {
+				lib.VerifAssert(o[i] == v[i], "registered []any: same elements")
+			}
+		}
+	case 10: // registered array of any
+		v := c11Arr{lib.VerifUint32("e"), lib.VerifBool("b")}
+		out, ok := rt(v, "registered [2]any")
+		lib.VerifAssert(!ok || out == v, "registered [2]any: decoded value equals the encoded one")
 	case 6: // nesting depth 2
 		v := [][]uint8{{lib.VerifByte("x")}, nil, {}}
 		out, ok := rt(v, "[][]uint8")
